@@ -82,7 +82,7 @@ Proof. unfold QA. intros E. destruct (acf_fields _ _ E) as [E1 [E2 [E3 [E4 [E5 _
 Lemma sect_QA i sn0 n0 a0 s e :
   i < length (conss s) -> (forall c, e <> EConsStep c) -> QA i sn0 n0 a0 (conss s) -> QA i sn0 n0 a0 (conss (step repaired s e)).
 Proof.
-  intros Hi Hne H. destruct e as [c0|k|r|a|g|a|g en|g v hr er|g|k|c0|c0|c0|c0 res|c0];
+  intros Hi Hne H. destruct e as [c0|k|r|a|g|a|g en|g v hr er|g|k|c0|c0|c0|c0 res|c0|c0];
     try (apply (Q_step_container (QA i sn0 n0 a0) (invoke_QA i sn0 n0 a0)); [exact I | exact H]); cbn [step].
   - unfold release_section. destruct (nth_error (relacts s) a) as [x|]; [|exact H]. destruct (ra_pc x); [|exact H].
     set (s1 := remove_ref _ (ra_ref x)). assert (H1 : QA i sn0 n0 a0 (conss s1)) by (apply (Q_remove_ref _ (invoke_QA i sn0 n0 a0)); exact H).
@@ -128,7 +128,7 @@ Proof.
     (is_cb (cpcv (getc (step repaired s e) i)) = true -> is_cb (cpcv (getc s i)) = true)).
   { intros E. split; [auto | now rewrite E]. }
   assert (Keep : Qpc i (cpcv (getc s i)) (conss s)) by reflexivity.
-  destruct e as [c0|k|r|a|g|a|g en|g v hr er|g|k|c0|c0|c0|c0 res|c0];
+  destruct e as [c0|k|r|a|g|a|g en|g v hr er|g|k|c0|c0|c0|c0 res|c0|c0];
     try (destruct Same as [S1 S2]; [apply sect_pc_container; exact I|]; split; [exact S1 | intros H; split; [now apply S2 | intros; discriminate]]);
     cbn [step].
   - (* removeRef section: only a consumer inside its own Release moves *)
